@@ -12,7 +12,7 @@ if src.count(old) != 1:
     print(f"pattern occurs {src.count(old)} times"); sys.exit(3)
 open(path, "w", encoding="utf-8").write(src.replace(old, new))
 try:
-    p = subprocess.run(["/verif/check", prop, "--tier", "quick"] + extra, capture_output=True, text=True)
+    p = subprocess.run(["/verif/check", prop, "--tier", "quick", "--evidence-dir", "/tmp/esrally-verif-dev-evidence"] + extra, capture_output=True, text=True)
     lines = p.stdout.strip().splitlines()
     print("\n".join(lines[-8:]))
     print("exit", p.returncode)
